@@ -93,6 +93,18 @@ logger = logging.getLogger(__name__)
 # -----------------------------------------------------------------------------
 
 
+class _ActivationAfterEvent(AfterEvent):
+    """An `AfterEvent` that remembers which activation of its state armed it.
+
+    📝 A plain subclass (no `__slots__`) so the instance can carry the
+    `activation` stamp; it still *is* an `AfterEvent` everywhere else.
+    """
+
+
+class _ActivationDoneEvent(DoneEvent):
+    """A `DoneEvent` that remembers which activation of its state produced it."""
+
+
 class ActorSystem:
     """A read-only view over the actor registry of one machine hierarchy.
 
@@ -325,6 +337,12 @@ class BaseInterpreter(Generic[TContext, TEvent]):
         self._actor_sources: Dict[str, str] = {}
         #: Current nesting depth of action expansion.
         self._action_depth: int = 0
+        #: How many times each state's timers/services have been armed. A
+        #: timer expiry, service result or `done.state` notification carries
+        #: the value current when it was produced, so one that is still
+        #: queued after its state was left (and perhaps re-entered) can be
+        #: told apart from the new activation's own.
+        self._activation_serial: Dict[str, int] = {}
         self._actors: Dict[str, "BaseInterpreter[Any, Any]"] = {}
 
         # 🔗 Extensibility & Introspection
@@ -1936,6 +1954,7 @@ class BaseInterpreter(Generic[TContext, TEvent]):
 
         for state in states_to_enter:
             self._active_state_nodes.add(state)
+            self._begin_activation(state)
             logger.debug("➡️  Entering state: '%s'.", state.id)
 
             # ⚙️ Run entry actions and schedule background tasks.
@@ -2227,10 +2246,13 @@ class BaseInterpreter(Generic[TContext, TEvent]):
                 )
                 # 📨 Create and send the synthetic `done.state.*` event,
                 #    carrying the final state's `output` as done data.
-                done_event = DoneEvent(
-                    type=f"done.state.{ancestor.id}",
-                    data=self._resolve_output(final_state),
-                    src=ancestor.id,
+                done_event = self._stamp_activation(
+                    DoneEvent(
+                        type=f"done.state.{ancestor.id}",
+                        data=self._resolve_output(final_state),
+                        src=ancestor.id,
+                    ),
+                    ancestor.id,
                 )
                 await self.send(done_event)
                 # Per SCXML, only fire for the first completed ancestor.
@@ -2518,19 +2540,27 @@ class BaseInterpreter(Generic[TContext, TEvent]):
                         eligible.append(t)
 
             # 🏁 `onDone` transitions for compound/parallel states.
-            if current.on_done and current.on_done.event == event.type:
+            if (
+                current.on_done
+                and current.on_done.event == event.type
+                and self._is_current_notification(event, current)
+            ):
                 if _passes(current.on_done):
                     eligible.append(current.on_done)
 
             # ⏰ `after` transitions for timed events.
-            if isinstance(event, AfterEvent):
+            if isinstance(event, AfterEvent) and self._is_current_notification(
+                event, current
+            ):
                 for transitions in current.after.values():
                     for t in transitions:
                         if t.event == event.type and _passes(t):
                             eligible.append(t)
 
             # 🤖 `onDone`/`onError` for invoked services.
-            if isinstance(event, DoneEvent):
+            if isinstance(event, DoneEvent) and self._is_current_notification(
+                event, current
+            ):
                 for inv in current.invoke:
                     if event.src == inv.id:
                         for t in inv.on_done + inv.on_error:
@@ -2797,6 +2827,58 @@ class BaseInterpreter(Generic[TContext, TEvent]):
     # 🛡️ Task & Guard Management
     # -------------------------------------------------------------------------
 
+    def _begin_activation(self, state: StateNode) -> None:
+        """Starts a new activation of `state`; called on every entry.
+
+        Anything still queued from an earlier activation of the same state
+        is stale from here on.
+
+        Args:
+            state (StateNode): The state being entered.
+        """
+        self._activation_serial[state.id] = (
+            self._activation_serial.get(state.id, 0) + 1
+        )
+
+    def _stamp_activation(self, event: Any, owner_id: str) -> Any:
+        """Marks a timer/service/done notification with its owner's activation.
+
+        Args:
+            event (Any): An `AfterEvent` or `DoneEvent`.
+            owner_id (str): Id of the state the notification belongs to.
+
+        Returns:
+            Any: An equal event that also carries `activation`.
+        """
+        if isinstance(event, AfterEvent):
+            stamped: Any = _ActivationAfterEvent(*event)
+        elif isinstance(event, DoneEvent):
+            stamped = _ActivationDoneEvent(*event)
+        else:  # pragma: no cover - defensive
+            return event
+        stamped.activation = (
+            owner_id,
+            self._activation_serial.get(owner_id, 0),
+        )
+        return stamped
+
+    def _is_current_notification(self, event: Any, state: StateNode) -> bool:
+        """Reports whether a stamped notification belongs to `state`'s
+        current activation. Unstamped events (hand-made by callers) pass.
+
+        Args:
+            event (Any): The event being matched.
+            state (StateNode): The state whose handler is being considered.
+
+        Returns:
+            bool: `False` only for a notification produced by an activation
+            of `state` that has since been exited.
+        """
+        stamp = getattr(event, "activation", None)
+        if stamp is None:
+            return True
+        return stamp == (state.id, self._activation_serial.get(state.id, 0))
+
     def _schedule_state_tasks(self, state: StateNode) -> None:
         """Schedules `after` and `invoke` tasks for a state upon its entry.
 
@@ -2824,7 +2906,9 @@ class BaseInterpreter(Generic[TContext, TEvent]):
             #    each made the delay elapse (and fire) once per candidate.
             for t_def in transitions[:1]:
                 delay_sec = float(resolved_ms) / 1000.0
-                after_event = AfterEvent(type=t_def.event)
+                after_event = self._stamp_activation(
+                    AfterEvent(type=t_def.event), state.id
+                )
                 self._after_timer(delay_sec, after_event, owner_id=state.id)
                 logger.debug(
                     "🕒 Scheduled 'after' event '%s' in %.2fs for state '%s'.",
